@@ -218,6 +218,19 @@ func (s *Sim) Sync() {
 	root := s.Env.Root()
 	for rel, content := range want {
 		p := filepath.Join(root, filepath.FromSlash(rel))
+		if content == SymlinkLoop {
+			// a source that cannot be read: a symbolic link to itself (open fails with ELOOP)
+			if fi, err := os.Lstat(p); err == nil && fi.Mode()&os.ModeSymlink != 0 {
+				continue
+			}
+			os.MkdirAll(filepath.Dir(p), 0o755)
+			os.Remove(p)
+			os.Symlink(filepath.Base(p), p)
+			continue
+		}
+		if fi, err := os.Lstat(p); err == nil && fi.Mode()&os.ModeSymlink != 0 {
+			os.Remove(p)
+		}
 		if cur, err := os.ReadFile(p); err == nil && string(cur) == content {
 			continue
 		}
@@ -250,6 +263,9 @@ func (s *Sim) Sync() {
 	// remove now-empty directories the model does not mention (source dirs whose files are all gone stay if listed)
 }
 
+// SymlinkLoop as the content of a model file makes Sync create a self-referential symbolic link.
+const SymlinkLoop = "\x00symlink-loop\x00"
+
 // Touch rewrites a file with identical content (new mtime / inode).
 func (s *Sim) Touch(rel string, recreate bool) {
 	p := filepath.Join(s.Env.Root(), filepath.FromSlash(rel))
@@ -271,6 +287,12 @@ func (s *Sim) SetFail(name string, on bool) {
 	} else {
 		os.Remove(p)
 	}
+}
+
+// SetWipe arms the removal of the state directory's temp folder by a target body (right before
+// its injected failure point).
+func (s *Sim) SetWipe(name string) {
+	os.WriteFile(filepath.Join(s.Env.Ctl(), "wipe_"+name), []byte("x"), 0o644)
 }
 
 // ClearFails disarms every injected failure.
@@ -466,6 +488,13 @@ func (s *Sim) CloneFull() (*Sim, error) {
 		dst := filepath.Join(base, rel)
 		if d.IsDir() {
 			return os.MkdirAll(dst, 0o755)
+		}
+		if d.Type()&os.ModeSymlink != 0 {
+			target, err := os.Readlink(p)
+			if err != nil {
+				return err
+			}
+			return os.Symlink(target, dst)
 		}
 		data, err := os.ReadFile(p)
 		if err != nil {
